@@ -2970,6 +2970,13 @@ func fileFromReader(name string, reader io.Reader) (*File, error) {
 // References:
 //   - https://datatracker.ietf.org/doc/html/rfc2183
 func fileFromReadSeeker(name string, reader io.ReadSeeker) *File {
+	// The content of the file is what follows the current position of the reader. After each
+	// write we return to that position (and not to the start of the underlying data), so that
+	// every write produces the same content.
+	startPos, err := reader.Seek(0, io.SeekCurrent)
+	if err != nil {
+		startPos = 0
+	}
 	return &File{
 		Name:   name,
 		Header: make(map[string][]string),
@@ -2978,7 +2985,7 @@ func fileFromReadSeeker(name string, reader io.ReadSeeker) *File {
 			if err != nil {
 				return readBytes, err
 			}
-			_, err = reader.Seek(0, io.SeekStart)
+			_, err = reader.Seek(startPos, io.SeekStart)
 			return readBytes, err
 		},
 	}
